@@ -763,3 +763,224 @@ Proof.
   destruct (ds_cons _ HS) as (lost & P & _). apply Permutation_length in P.
   rewrite !app_length in P. pose proof (run_le_held (d_w s)) as L. unfold held in P. lia.
 Qed.
+
+(* ---------------------------------------------------------------- full liveness: a ranking function
+   Worker-only schedules on a never-closed queue are finite, with an explicit bound: every worker action
+   decreases the rank, except a failing run, which may raise it by a constant. *)
+Definition rk (ne : bool) (p : wpc) : nat :=
+  match p with
+  | WRemove => if ne then 0 else 4
+  | WCondWait => 1
+  | WIdle => 2
+  | WCheckClosed => 3
+  | WRunning _ => 5
+  | WHold _ => 6
+  | WRequeue _ => 0      (* plus Q + 3, added in [rsum] so that [rk] stays independent of the worker count *)
+  | WExit => 0
+  end.
+
+Definition is_requeue (p : wpc) : nat := match p with WRequeue _ => 1 | _ => 0 end.
+
+Fixpoint rsum (q : nat) (ne : bool) (ws : list wpc) : nat :=
+  match ws with
+  | [] => 0
+  | p :: ws' => rk ne p + is_requeue p * (q + 3) + rsum q ne ws'
+  end.
+
+Definition Qc (s : dst) : nat := 4 * length (d_w s) + 8.
+Definition rank (s : dst) : nat :=
+  Qc s * dcnt (d_q s) + rsum (Qc s) (negb (dcnt (d_q s) =? 0)) (d_w s).
+
+Definition worker_label (l : dlabel) : bool :=
+  match l with LWStep _ | LWWake _ | LWFinish _ _ => true | _ => false end.
+Definition cost (q : nat) (l : dlabel) : nat := match l with LWFinish _ false => q - 1 | _ => 0 end.
+
+Lemma updw_length ws : forall w p, length (updw ws w p) = length ws.
+Proof. induction ws; intros [|w] p; cbn; auto. Qed.
+
+Lemma rsum_updw q ne ws : forall w p p', getw ws w = Some p ->
+  rsum q ne (updw ws w p') + (rk ne p + is_requeue p * (q + 3)) = rsum q ne ws + (rk ne p' + is_requeue p' * (q + 3)).
+Proof.
+  unfold getw. induction ws as [|h t IH]; intros [|w] p p' H; cbn in H; try discriminate.
+  - injection H as ->. cbn. lia.
+  - cbn. specialize (IH w p p' H). lia.
+Qed.
+
+Lemma rk_mono p : rk true p <= rk false p /\ rk false p <= rk true p + 4.
+Proof. destruct p; cbn; lia. Qed.
+
+Lemma rsum_mono q ws : rsum q true ws <= rsum q false ws /\ rsum q false ws <= rsum q true ws + 4 * length ws.
+Proof.
+  induction ws as [|p ws (IH1 & IH2)]; cbn; [lia|]. destruct (rk_mono p). lia.
+Qed.
+
+Lemma rsum_ne q ne ws : rsum q true ws <= rsum q ne ws /\ rsum q ne ws <= rsum q true ws + 4 * length ws.
+Proof. destruct ne; [lia|apply rsum_mono]. Qed.
+
+Lemma rank_step s l s' : DSInv s -> dclosed (d_q s) = false -> worker_label l = true ->
+  dstep s l = DNext s' ->
+  dclosed (d_q s') = false /\ length (d_w s') = length (d_w s) /\ rank s' + 1 <= rank s + cost (Qc s) l.
+Proof.
+  intros HS Ho Hl H. pose proof (ds_q _ HS) as HI.
+  (* a worker moves from p to p' without touching the queue *)
+  assert (Hplain : forall w p p' s1, getw (d_w s) w = Some p ->
+            d_q s1 = d_q s -> d_w s1 = updw (d_w s) w p' ->
+            forall k, (forall ne, rk ne p' + is_requeue p' * (Qc s + 3) + 1 <= rk ne p + is_requeue p * (Qc s + 3) + k) ->
+            dclosed (d_q s1) = false /\ length (d_w s1) = length (d_w s) /\ rank s1 + 1 <= rank s + k).
+  { intros w p p' s1 Hw Eq Ew k Hk. rewrite Eq. split; [exact Ho|]. rewrite Ew, updw_length. split; [reflexivity|].
+    unfold rank, Qc. rewrite Eq, Ew, updw_length.
+    pose proof (rsum_updw (4 * length (d_w s) + 8) (negb (dcnt (d_q s) =? 0)) (d_w s) w p p' Hw) as R.
+    specialize (Hk (negb (dcnt (d_q s) =? 0))). unfold Qc in Hk. lia. }
+  destruct l; try discriminate; cbn [dstep] in H.
+  - (* LWStep *)
+    destruct (getw (d_w s) w) as [p|] eqn:Hw; [|discriminate]. destruct p; try discriminate.
+    + (* WIdle *)
+      rewrite Ho in H. destruct (dcnt (d_q s) =? 0) eqn:E0; injection H as <-.
+      * (* queue empty: the rank is evaluated with ne = false *)
+        split; [exact Ho|]. cbn [d_w setw]. rewrite updw_length. split; [reflexivity|].
+        unfold rank, Qc; cbn [d_q d_w setw]. rewrite updw_length, E0. cbn [negb].
+        pose proof (rsum_updw (4 * length (d_w s) + 8) false (d_w s) w WIdle WCondWait Hw) as R. cbn [rk is_requeue] in R. lia.
+      * split; [exact Ho|]. cbn [d_w setw]. rewrite updw_length. split; [reflexivity|].
+        unfold rank, Qc; cbn [d_q d_w setw]. rewrite updw_length, E0. cbn [negb].
+        pose proof (rsum_updw (4 * length (d_w s) + 8) true (d_w s) w WIdle WRemove Hw) as R. cbn [rk is_requeue] in R. lia.
+    + (* WRemove *)
+      destruct (dremove_ok (d_q s) HI) as (q' & r & Hr & I' & Hc & _ & Ha). rewrite Hr in H. cbn [dqdo] in H.
+      destruct r as [j|]; injection H as <-.
+      * (* a job is taken: cnt decreases by one *)
+        assert (Hcnt : dcnt (d_q s) = S (dcnt q')).
+        { rewrite <- (dabs_length (d_q s)), <- (dabs_length q'), Ha. reflexivity. }
+        split; [cbn; congruence|]. cbn [d_w setw setq]. rewrite updw_length. split; [reflexivity|].
+        unfold rank, Qc; cbn [d_q d_w setw setq cost]. rewrite updw_length, Hcnt. cbn [Nat.eqb negb].
+        remember (4 * length (d_w s) + 8) as Q eqn:EQ.
+        pose proof (rsum_updw Q true (d_w s) w WRemove (WHold j) Hw) as R. cbn [rk is_requeue] in R.
+        pose proof (rsum_ne Q (negb (dcnt q' =? 0)) (updw (d_w s) w (WHold j))) as (_ & M). rewrite updw_length in M.
+        nia.
+      * (* nothing there *)
+        destruct Ha as (Ha & _). assert (E0 : dcnt (d_q s) = 0) by (rewrite <- dabs_length, Ha; reflexivity).
+        assert (Eq : q' = d_q s).
+        { unfold dremove in Hr. rewrite E0 in Hr. cbn in Hr. congruence. }
+        subst q'. split; [exact Ho|]. cbn [d_w setw setq]. rewrite updw_length. split; [reflexivity|].
+        unfold rank, Qc; cbn [d_q d_w setw setq cost]. rewrite updw_length, E0. cbn [Nat.eqb negb].
+        pose proof (rsum_updw (4 * length (d_w s) + 8) false (d_w s) w WRemove WCheckClosed Hw) as R. cbn [rk is_requeue] in R. lia.
+    + (* WCheckClosed *)
+      rewrite Ho in H. injection H as <-.
+      cbn [cost]. eapply (Hplain w WCheckClosed WIdle); [exact Hw|reflexivity|reflexivity|]. intros ne. destruct ne; cbn; lia.
+    + (* WHold *)
+      injection H as <-.
+      cbn [cost]. eapply (Hplain w (WHold j) (WRunning j)); [exact Hw|reflexivity|reflexivity|]. intros ne. cbn; lia.
+    + (* WRequeue *)
+      destruct (dadd_ok (d_q s) j HI) as (q' & ok & Ha & I' & Hc & _ & Hok & Hab). rewrite Ha in H. cbn [dqdo] in H.
+      injection H as <-. rewrite Ho in Hok. cbn in Hok. subst ok.
+      assert (Hcnt : dcnt q' = S (dcnt (d_q s))).
+      { rewrite <- (dabs_length (d_q s)), <- (dabs_length q'), Hab, app_length. cbn. lia. }
+      split; [cbn; congruence|]. cbn [d_w setw setq]. rewrite updw_length. split; [reflexivity|].
+      unfold rank, Qc; cbn [d_q d_w setw setq cost]. rewrite updw_length, Hcnt. cbn [Nat.eqb negb].
+      remember (4 * length (d_w s) + 8) as Q eqn:EQ.
+      pose proof (rsum_updw Q (negb (dcnt (d_q s) =? 0)) (d_w s) w (WRequeue j) WIdle Hw) as R. cbn [rk is_requeue] in R.
+      pose proof (rsum_ne Q (negb (dcnt (d_q s) =? 0)) (updw (d_w s) w WIdle)) as (M & _).
+      nia.
+  - (* LWWake *)
+    destruct (getw (d_w s) w) as [p|] eqn:Hw; [|discriminate]. destruct p; try discriminate.
+    rewrite Ho in H. cbn [orb] in H. destruct (dcnt (d_q s) =? 0) eqn:E0; [discriminate|]. injection H as <-.
+    split; [exact Ho|]. cbn [d_w setw]. rewrite updw_length. split; [reflexivity|].
+    unfold rank, Qc; cbn [d_q d_w setw cost]. rewrite updw_length, E0. cbn [negb].
+    pose proof (rsum_updw (4 * length (d_w s) + 8) true (d_w s) w WCondWait WRemove Hw) as R. cbn [rk is_requeue] in R. lia.
+  - (* LWFinish *)
+    destruct (getw (d_w s) w) as [p|] eqn:Hw; [|discriminate]. destruct p; try discriminate.
+    destruct ok; injection H as <-.
+    + cbn [cost]. eapply (Hplain w (WRunning j) WIdle); [exact Hw|reflexivity|reflexivity|]. intros ne. destruct ne; cbn; lia.
+    + cbn [cost]. eapply (Hplain w (WRunning j) (WRequeue j)); [exact Hw|reflexivity|reflexivity|]. intros ne. unfold Qc. cbn [rk is_requeue]. lia.
+Qed.
+
+Definition fails (sched : list dlabel) : nat :=
+  length (filter (fun l => match l with LWFinish _ false => true | _ => false end) sched).
+
+Lemma cost_fails q l : cost q l = (q - 1) * fails [l].
+Proof. destruct l as [| | | |w [|]]; cbn; lia. Qed.
+
+Lemma rank_run sched : forall s s', DSInv s -> dclosed (d_q s) = false ->
+  forallb worker_label sched = true -> drun s sched = DNext s' ->
+  DSInv s' /\ dclosed (d_q s') = false /\ length (d_w s') = length (d_w s) /\
+  length sched + rank s' <= rank s + (Qc s - 1) * fails sched.
+Proof.
+  induction sched as [|l sched IH]; intros s s' HS Ho Hw; cbn [drun].
+  - intros [= <-]. split; [exact HS|]. split; [exact Ho|]. split; [reflexivity|]. unfold fails. cbn [filter length]. lia.
+  - cbn in Hw. apply andb_true_iff in Hw. destruct Hw as [Hl Hw].
+    destruct (dstep s l) as [s1| |] eqn:E; try discriminate. intros H.
+    destruct (rank_step s l s1 HS Ho Hl E) as (Ho1 & Hlen1 & Hr1).
+    pose proof (dstep_ok s l HS) as HS1. rewrite E in HS1. cbn in HS1.
+    destruct (IH s1 s' HS1 Ho1 Hw H) as (HS' & Ho' & Hlen' & Hr').
+    assert (EQ : Qc s1 = Qc s) by (unfold Qc; rewrite Hlen1; reflexivity). rewrite EQ in Hr'.
+    split; auto. split; auto. split; [congruence|].
+    rewrite cost_fails in Hr1. unfold fails in *. cbn [filter length] in *.
+    destruct l as [| | | |w [|]]; cbn [length] in *; nia.
+Qed.
+
+Lemma rsum_le q ne ws : rsum q ne ws <= length ws * (q + 9).
+Proof. induction ws as [|p ws IH]; cbn; auto. destruct p, ne; cbn; nia. Qed.
+
+Lemma rank_le s : rank s <= Qc s * dcnt (d_q s) + length (d_w s) * (Qc s + 9).
+Proof. unfold rank. pose proof (rsum_le (Qc s) (negb (dcnt (d_q s) =? 0)) (d_w s)). lia. Qed.
+
+(* a state in which no worker action is enabled: every worker sleeps on an empty queue *)
+Lemma no_worker_enabled_done s : DSInv s -> dclosed (d_q s) = false -> 1 <= length (d_w s) ->
+  (forall l, worker_label l = true -> dstep s l = DBlocked) ->
+  Permutation (d_accepted s) (d_succeeded s).
+Proof.
+  intros HS Ho Hnw Hblk.
+  assert (Hall : forall w p, getw (d_w s) w = Some p -> p = WCondWait /\ dcnt (d_q s) = 0).
+  { intros w p Hw. pose proof (progress s w p HS Ho Hw) as P. destruct p.
+    - destruct P as (s' & E). rewrite (Hblk (LWStep w) eq_refl) in E. discriminate.
+    - split; auto. destruct (Nat.eq_dec (dcnt (d_q s)) 0) as [E0|E0]; auto.
+      destruct (P E0) as (s' & E). rewrite (Hblk (LWWake w) eq_refl) in E. discriminate.
+    - destruct P as (s' & E). rewrite (Hblk (LWStep w) eq_refl) in E. discriminate.
+    - destruct P as (s' & E). rewrite (Hblk (LWStep w) eq_refl) in E. discriminate.
+    - destruct P as (s' & E). rewrite (Hblk (LWStep w) eq_refl) in E. discriminate.
+    - destruct (P true) as (s' & E). rewrite (Hblk (LWFinish w true) eq_refl) in E. discriminate.
+    - destruct P as (s' & E). rewrite (Hblk (LWStep w) eq_refl) in E. discriminate.
+    - destruct P. }
+  assert (Hc : dcnt (d_q s) = 0).
+  { destruct (d_w s) as [|p ws] eqn:Ews; [cbn in Hnw; lia|].
+    destruct (Hall 0 p) as (_ & H0); [reflexivity|exact H0]. }
+  apply terminal_all_done; auto.
+  unfold held. assert (Hws : forall ws, (forall w p, getw ws w = Some p -> p = WCondWait) -> flat_map job_of ws = []).
+  { induction ws as [|p ws IHws]; intros Hp; cbn; auto.
+    rewrite (Hp 0 p eq_refl). cbn. apply IHws. intros w q Hq. apply (Hp (S w) q). exact Hq. }
+  apply Hws. intros w p Hw. apply (Hall w p Hw).
+Qed.
+
+(* LIVENESS.  Never-closed queue, any reachable state, any continuation made of worker actions only:
+   (1) its length is bounded by rank + (Q-1) * (number of failed runs in it), a computable number
+       (rank <= Q * queue length + workers * (Q + 9), Q = 4 * workers + 8) -- so with every job failing
+       at most k times a worker-only run is finite;
+   (2) explicit fairness premise: the run is maximal, i.e. it stops only where no worker action is
+       enabled; there every submitted (accepted) job has succeeded. *)
+Theorem liveness ic nw sched0 s sched s' : 1 <= ic ->
+  drun (dinitial ic nw) sched0 = DNext s -> dclosed (d_q s) = false ->
+  forallb worker_label sched = true -> drun s sched = DNext s' ->
+  length sched <= rank s + (Qc s - 1) * fails sched /\
+  rank s <= Qc s * dcnt (d_q s) + length (d_w s) * (Qc s + 9) /\
+  (1 <= length (d_w s) -> (forall l, worker_label l = true -> dstep s' l = DBlocked) ->
+   Permutation (d_accepted s') (d_succeeded s') /\ d_accepted s' = d_accepted s).
+Proof.
+  intros Hic H0 Ho Hw H.
+  assert (HS : DSInv s) by (apply (dreach_inv ic nw); [exact Hic|exists sched0; exact H0]).
+  destruct (rank_run sched s s' HS Ho Hw H) as (HS' & Ho' & Hlen & Hr).
+  split; [lia|]. split; [apply rank_le|].
+  intros Hnw Hblk. split; [apply no_worker_enabled_done; auto; lia|].
+  clear - Hw H. revert s H. induction sched as [|l sched IH]; intros s H; cbn [drun] in H.
+  - injection H as <-. reflexivity.
+  - cbn in Hw. apply andb_true_iff in Hw. destruct Hw as [Hl Hw].
+    destruct (dstep s l) as [s1| |] eqn:E; try discriminate.
+    rewrite (IH Hw s1 H). destruct l; try discriminate; cbn [dstep] in E.
+    + destruct (getw (d_w s) w) as [p|]; [|discriminate]. destruct p; try discriminate.
+      * destruct (dclosed (d_q s)); [|destruct (dcnt (d_q s) =? 0)]; injection E as <-; reflexivity.
+      * destruct (dremove (d_q s)) as [[q r]|]; [|discriminate]. cbn in E. destruct r; injection E as <-; reflexivity.
+      * injection E as <-. reflexivity.
+      * injection E as <-. reflexivity.
+      * destruct (dadd (d_q s) j) as [[q r]|]; [|discriminate]. cbn in E. injection E as <-. reflexivity.
+    + destruct (getw (d_w s) w) as [p|]; [|discriminate]. destruct p; try discriminate.
+      destruct (dclosed (d_q s) || negb (dcnt (d_q s) =? 0)); [|discriminate]. injection E as <-. reflexivity.
+    + destruct (getw (d_w s) w) as [p|]; [|discriminate]. destruct p; try discriminate.
+      destruct ok; injection E as <-; reflexivity.
+Qed.
